@@ -47,8 +47,9 @@ BINDING = re.compile(r'<'
                      r'(?P<type>\w+)*'
                      r'>')
 
-_FLOAT_PATTERN = r'[+-]?\ *(\d+(\.\d*)?|\.\d+)([eE][+-]?\d+)?'
-_INT_PATTERN = r'[+-]?\ *[0-9]+'
+# a sign or leading blanks, not both: int('+ 5') and float('- 1.0') fail
+_FLOAT_PATTERN = r'(?:[+-]|\ *)(\d+(\.\d*)?|\.\d+)([eE][+-]?\d+)?'
+_INT_PATTERN = r'(?:[+-]|\ *)[0-9]+'
 _STR_PATTERN = r'[^/]+'
 
 _SEG_TMPL = '(?P<{name}>({sep}{pattern}){arity})'
